@@ -286,7 +286,7 @@ def run(tier, seed):
     rep = Report(PID, tier, seed)
     blocks = space(tier)
     total, capped = run_blocks(worker, blocks, seed=seed)
-    rep.add_violations(total.violations)
+    rep.add_violations(total.violations, total.hist_sig)
     rep.harness_errors = total.stats.get("harness_errors", 0)
     rep.notes.extend(total.notes)
     rep.coverage = {
